@@ -13,7 +13,8 @@
                                                        ddayset (y, m, d) → ok <start> <end> [i:v,…  the non-None entries] | err Kind
     rrgen.timeset <args17> <kind 0..2> <h> <m> <s>     htimeset / mtimeset / stimeset → ok [h,m,s,…] | err Kind
     rrgen.init <args17>                               the translated sections of rrule.__init__ (Gen.init_*) in source order:
-                                                       ok bysetpos bymonth byyearday byeaster bymonthday(pos/neg) byweekno byhour byminute bysecond | err Kind
+                                                       ok bysetpos bymonth byyearday byeaster bymonthday(pos/neg) byweekno byhour byminute bysecond timeset | err Kind
+                                                       (interval check first; bymonth / bymonthday through the defaults section)
   `<args17>` is the argument set of Ops/RRule.lean; the rule is the model's `construct` of it (compared with the
   implementation's normalised state by `rrule.construct` in the same correspondence).
 -/
@@ -68,24 +69,33 @@ def showTimes (x : Py.R (List HMS)) : String :=
 /-- the translated sections of `rrule.__init__` in source order on an argument set; `~` where the section's input is the
     product of the (not yet translated) defaults block -/
 def runInit (a : Args) : String :=
-  let dflt := noDayParts a
-  let sec (x : Py.R (Option (List Int))) (k : String → String) : String :=
+  let sec (x : Py.R (Option (List Int))) (k : Option (List Int) → String) : String :=
     match x with
     | .error e => "err " ++ e.name
-    | .ok v => k (Ops.RRule.showOL v)
+    | .ok v => k v
+  match Gen.init_interval a.interval with
+  | .error e => "err " ++ e.name
+  | .ok _ =>
   sec (Gen.init_bysetpos a.bysetpos) fun s1 =>
-  (if dflt && a.freq == 0 && a.bymonth.isNone then (fun k => k "~") else sec (Gen.init_bymonth a.bymonth)) fun s2 =>
+  match Gen.init_defaults a.freq a.dtstart a.bymonth a.bymonthday a.byyearday a.byeaster a.byweekno a.byweekday with
+  | .error e => "err " ++ e.name
+  | .ok (bm, bmd, _) =>
+  sec (Gen.init_bymonth bm) fun s2 =>
   sec (Gen.init_byyearday a.byyearday) fun s3 =>
   sec (Gen.init_byeaster a.byeaster) fun s4 =>
-  (if dflt && (a.freq == 0 || a.freq == 1) then (fun k => k "~")
-   else fun k => match Gen.init_bymonthday a.bymonthday with
-     | .error e => "err " ++ e.name
-     | .ok (p, n) => k (showIntList p ++ "/" ++ showIntList n)) fun s5 =>
+  match Gen.init_bymonthday bmd with
+  | .error e => "err " ++ e.name
+  | .ok (p, n) =>
   sec (Gen.init_byweekno a.byweekno) fun s6 =>
   sec (Gen.init_byhour a.freq a.dtstart a.interval a.byhour) fun s7 =>
   sec (Gen.init_byminute a.freq a.dtstart a.interval a.byminute) fun s8 =>
   sec (Gen.init_bysecond a.freq a.dtstart a.interval a.bysecond) fun s9 =>
-  "ok " ++ " ".intercalate [s1, s2, s3, s4, s5, s6, s7, s8, s9]
+  match Gen.init_timeset a.freq s7 s8 s9 with
+  | .error e => "err " ++ e.name
+  | .ok ts =>
+  "ok " ++ " ".intercalate [Ops.RRule.showOL s1, Ops.RRule.showOL s2, Ops.RRule.showOL s3, Ops.RRule.showOL s4,
+    showIntList p ++ "/" ++ showIntList n, Ops.RRule.showOL s6, Ops.RRule.showOL s7, Ops.RRule.showOL s8, Ops.RRule.showOL s9,
+    (match ts with | none => "-" | some l => showIntList (l.flatMap fun t => [t.1, t.2.1, t.2.2]))]
 
 def handle (op : String) (args : List String) : Option String :=
   if !op.startsWith "rrgen." then none else
